@@ -207,9 +207,14 @@ type Access<'w, 's> = (
 
 fn opt(v: Option<u32>) -> String { v.map(|x| x.to_string()).unwrap_or("-".into()) }
 fn opt_name(v: Option<Entity>) -> String { v.map(name_of).unwrap_or("-".into()) }
+/// Like `opt_name`, with a `!` suffix when the named entity does not exist (an insertion that never happened).
+fn opt_name_alive(v: Option<Entity>, ents: &bevy::ecs::entity::Entities) -> String
+{
+    v.map(|e| if ents.contains(e) { name_of(e) } else { format!("{}!", name_of(e)) }).unwrap_or("-".into())
+}
 
 /// Samples every reader. System events are taken (twice); taken payloads are dropped after the line is logged.
-fn sample(ev: &mut EvReaders, er: &EntReaders) -> (String, Vec<Payload>)
+fn sample(ev: &mut EvReaders, er: &EntReaders, ents: &bevy::ecs::entity::Entities) -> (String, Vec<Payload>)
 {
     let mut taken = Vec::new();
     let mut se = Vec::new();
@@ -226,7 +231,7 @@ fn sample(ev: &mut EvReaders, er: &EntReaders) -> (String, Vec<Payload>)
     let s = format!(
         "se={},{} se2={},{} bc={},{} ev={},{} ins={},{} mut={},{} rem={},{} dsp={}",
         opt(se[0]), opt(se[1]), opt(se2[0]), opt(se2[1]), opt(bc[0]), opt(bc[1]), ee[0], ee[1],
-        opt_name(er.0.get().ok()), opt_name(er.1.get().ok()),
+        opt_name_alive(er.0.get().ok(), ents), opt_name_alive(er.1.get().ok(), ents),
         opt_name(er.2.get().ok()), opt_name(er.3.get().ok()),
         opt_name(er.4.get().ok()), opt_name(er.5.get().ok()),
         opt_name(er.6.get().ok()),
@@ -464,16 +469,16 @@ fn run_label(local: u32, cap: u32) -> String
 
 /// An ordinary scripted system. `ewr` = index of the entity world reactor this system is (it then reads `EntityLocal`).
 fn make_ordinary(def: usize, name: usize, ewr: Option<usize>)
-    -> impl FnMut(Local<u32>, Commands, EvReaders, EntReaders, Access) + Send + Sync + 'static
+    -> impl FnMut(Local<u32>, Commands, EvReaders, EntReaders, Access, &bevy::ecs::entity::Entities) + Send + Sync + 'static
 {
     debug_assert!(ewr.is_none());
     let canary = Canary(name);
     let mut cap = 0u32;
-    move |mut local: Local<u32>, mut c: Commands, mut ev: EvReaders, er: EntReaders, mut acc: Access|
+    move |mut local: Local<u32>, mut c: Commands, mut ev: EvReaders, er: EntReaders, mut acc: Access, ents: &bevy::ecs::entity::Entities|
     {
         let _ = &canary;
         let run = *local;
-        let (obs, taken) = sample(&mut ev, &er);
+        let (obs, taken) = sample(&mut ev, &er, ents);
         log(format!("body s{} {} {} loc=", name, run_label(run, cap), obs));
         drop(taken);
         *local += 1;
@@ -488,16 +493,16 @@ fn make_ordinary(def: usize, name: usize, ewr: Option<usize>)
 macro_rules! make_ewr_system {
     ($fname:ident, $n:literal) => {
         fn $fname(def: usize, name: usize)
-            -> impl FnMut(Local<u32>, Commands, EvReaders, EntReaders, Access, EntityLocal<Ewr<$n>>, Res<EntityReactionProbe>) + Send + Sync + 'static
+            -> impl FnMut(Local<u32>, Commands, EvReaders, EntReaders, Access, EntityLocal<Ewr<$n>>, &bevy::ecs::entity::Entities) + Send + Sync + 'static
         {
             let canary = Canary(name);
             let mut cap = 0u32;
             move |mut local: Local<u32>, mut c: Commands, mut ev: EvReaders, er: EntReaders, mut acc: Access,
-                  loc: EntityLocal<Ewr<$n>>, _p: Res<EntityReactionProbe>|
+                  loc: EntityLocal<Ewr<$n>>, ents: &bevy::ecs::entity::Entities|
             {
                 let _ = &canary;
                 let run = *local;
-                let (obs, taken) = sample(&mut ev, &er);
+                let (obs, taken) = sample(&mut ev, &er, ents);
                 // `EntityLocal` panics unless the run was caused by an entity reaction for this reactor.
                 EXPECT_PANIC.with(|e| e.set(true));
                 let l = std::panic::catch_unwind(std::panic::AssertUnwindSafe(|| { let (e, v) = loc.get(); (e, *v) })).ok();
@@ -520,9 +525,9 @@ struct EntityReactionProbe;
 make_ewr_system!(make_ewr0, 0);
 make_ewr_system!(make_ewr1, 1);
 
-fn probe_readers(mut ev: EvReaders, er: EntReaders) -> String
+fn probe_readers(mut ev: EvReaders, er: EntReaders, ents: &bevy::ecs::entity::Entities) -> String
 {
-    let (obs, taken) = sample(&mut ev, &er);
+    let (obs, taken) = sample(&mut ev, &er, ents);
     // Payloads taken by the probe are dropped when the caller has logged the line.
     PROBE_TAKEN.with(|t| t.borrow_mut().extend(taken));
     obs
